@@ -435,6 +435,12 @@ func (ca *countAcc) consumed(list []ast.Stmt, i int, v types.Object) (bool, stri
 			if st.Tok == token.ADD_ASSIGN && len(st.Lhs) == 1 && ca.obj(st.Lhs[0]) == ca.total && mentions(ca.p.Info, st.Rhs[0], v) {
 				return true, ""
 			}
+			// the running total is declared from the first count: nothing can have been counted before
+			if st.Tok == token.DEFINE && len(st.Lhs) == 1 && len(st.Rhs) == 1 && ca.obj(st.Lhs[0]) == ca.total && mentions(ca.p.Info, st.Rhs[0], v) {
+				if id, ok := st.Lhs[0].(*ast.Ident); ok && ca.p.Info.Defs[id] == ca.total {
+					return true, ""
+				}
+			}
 			if st.Tok == token.ASSIGN && len(st.Lhs) == 1 && len(st.Rhs) == 1 && ca.obj(st.Lhs[0]) == ca.total {
 				if be, ok := st.Rhs[0].(*ast.BinaryExpr); ok && be.Op == token.ADD && mentions(ca.p.Info, be, v) && mentions(ca.p.Info, be, ca.total) {
 					return true, ""
@@ -693,10 +699,6 @@ func runRestoreGate(p *Program, r *Report, entries []*ssa.Function) {
 		n++
 		name := p.FuncName(fn)
 		succ := successReturns(fn)
-		if len(succ) == 0 {
-			r.Undecided("R13d", name+"/gate", p.Pos(fn.Pos()), "restore function without a success return")
-			continue
-		}
 		// stream reads of this function (direct or through stream functions)
 		var reads []ssa.Instruction
 		for _, b := range fn.Blocks {
@@ -708,6 +710,42 @@ func runRestoreGate(p *Program, r *Report, entries []*ssa.Function) {
 					}
 				}
 			}
+		}
+		if len(succ) == 0 {
+			// "return total, err" where err is the outcome of the consistency test itself: the
+			// function succeeds exactly when the test does
+			passes := false
+			if ei := errorResultIndex(fn.Signature); ei >= 0 {
+				for _, ret := range returnsOf(fn) {
+					v := retOperands(ret)[ei]
+					var call *ssa.Call
+					switch x := v.(type) {
+					case *ssa.Call:
+						call = x
+					case *ssa.Extract:
+						call, _ = x.Tuple.(*ssa.Call)
+					}
+					if call == nil {
+						continue
+					}
+					after := true
+					for _, rd := range reads {
+						if rd == ssa.Instruction(call) || (rd.Block() == call.Block() && instrIndex(rd) > instrIndex(call)) || (rd.Block() != call.Block() && reachableBlocks(call.Block().Succs)[rd.Block()]) {
+							after = false
+						}
+					}
+					cond := &ssa.BinOp{Op: token.NEQ, X: v}
+					if after && !condIsErrTestOfRead(p, cond) && condDependsOnRestoredState(p, fn, cond) && callbackCanFail(cond) {
+						passes = true
+					}
+				}
+			}
+			if passes {
+				r.Discharge("R13d", name+"/gate", p.Pos(fn.Pos()), "the function returns the outcome of a post-read consistency test of the restored state as its error: it succeeds exactly when the test does", true)
+			} else {
+				r.Undecided("R13d", name+"/gate", p.Pos(fn.Pos()), "restore function without a success return")
+			}
+			continue
 		}
 		// candidate gates: Ifs whose failing edge returns a non-nil error, that
 		// lie after all reads, and whose condition is not the error test of a read.
